@@ -153,7 +153,24 @@ def run(chk, prog):
     fw = prog.fn("vfps::PhaseSpace::simpsonWeights")
     chk.used(fw)
     holderw = {}
-    sw = I.Scanner(fw, hooks=[G.make_axis_hook(lambda: holderw.get("s"))])
+    bindw = None
+    if fw["params"]:
+        # the step width is handed in: every call site must pass the same value, which then stands for the parameter
+        vals = []
+        for f_ in prog.functions.values():
+            if f_.get("class") != "vfps::PhaseSpace":
+                continue
+            roots_ = ([f_["body"]] if f_.get("body") else []) + [i_["expr"] for i_ in f_.get("inits", []) if isinstance(i_.get("expr"), dict)]
+            for r_ in roots_:
+                for x_ in A.walk(r_):
+                    if x_.get("callee") == "vfps::PhaseSpace::simpsonWeights" and len(x_.get("args", [])) == len(fw["params"]):
+                        hc_ = {}
+                        sc_ = I.Scanner(f_, hooks=[G.make_axis_hook(lambda: hc_.get("s"))])
+                        hc_["s"] = sc_
+                        vals.append(tuple(sc_._try(a_) for a_ in x_["args"]))
+        A.require(vals and len(set(vals)) == 1 and None not in vals[0], "simpsonWeights: call sites do not agree on (or do not give) the arguments: %s" % vals)
+        bindw = {p_["name"]: v_ for p_, v_ in zip(fw["params"], vals[0])}
+    sw = I.Scanner(fw, hooks=[G.make_axis_hook(lambda: holderw.get("s"))], bind_params=bindw)
     holderw["s"] = sw
     sw.run()
     h = G.DELTA(0) / 3
